@@ -345,8 +345,10 @@ def run_model(ctx, runner, casefile, timeout=1800, jobs=None):
     return rc, res
 
 def proof_break_violation(ctx, found_any_input):
-    """called when the theorems no longer check and the search found no failing input"""
-    if not found_any_input:
+    """called when the theorems no longer check: unless the search reported a FRESH violation with a concrete failing input
+    (a known finding does not count: it was there before the proofs broke), the broken proof itself is the violation"""
+    fresh = any(v[3] for v in ctx.violations)
+    if not fresh:
         ctx.violation('proof-broken', 'theorems of coq/%s/Properties.v no longer check: %s' % (ctx.pid, '; '.join(getattr(ctx, 'proof_errors', [])[:3])),
                       {'broken': getattr(ctx, 'proof_errors', []), 'theorem_file': 'coq/%s/Properties.v' % ctx.pid}, found_input=False)
 
